@@ -189,6 +189,7 @@ type Engine struct {
 	// ClientSaved: per open document, the text the editor last opened or saved (what the editor
 	// itself regards as the saved state, whatever the world did to the disk since)
 	ClientSaved  map[string]string
+	folders      []string // current workspace folders once a folders op has been applied
 	version      map[string]int
 	events       []pendingEvt
 	budget       int
@@ -621,6 +622,7 @@ func (e *Engine) exec(i int, op *Op) {
 	case "folders":
 		var v interface{}
 		json.Unmarshal(op.Params, &v)
+		e.applyFolders(op.Params)
 		e.sendRaw("workspace/didChangeWorkspaceFolders", map[string]interface{}{"event": v}, false, i)
 		settle()
 	case "cancel":
@@ -746,14 +748,63 @@ func (e *Engine) ClientEdited(p string) bool {
 	return open && string(cur) != e.ClientSaved[p]
 }
 
+// applyFolders keeps the client's own list of workspace folders up to date.
+func (e *Engine) applyFolders(params json.RawMessage) {
+	var ev struct {
+		Added, Removed []struct {
+			URI string `json:"uri"`
+		}
+	}
+	if json.Unmarshal(params, &ev) != nil {
+		return
+	}
+	if e.folders == nil {
+		e.folders = append([]string(nil), e.sc.Folders...)
+		if len(e.folders) == 0 {
+			e.folders = []string{Root}
+		}
+	}
+	for _, a := range ev.Added {
+		p := strings.TrimPrefix(a.URI, "file://")
+		have := false
+		for _, f := range e.folders {
+			have = have || f == p
+		}
+		if !have {
+			e.folders = append(e.folders, p)
+		}
+	}
+	for _, r := range ev.Removed {
+		p := strings.TrimPrefix(r.URI, "file://")
+		var keep []string
+		for _, f := range e.folders {
+			if f != p {
+				keep = append(keep, f)
+			}
+		}
+		e.folders = keep
+	}
+}
+
+// CurFolders returns the workspace folders the client currently has (nil = just the root).
+func (e *Engine) CurFolders() []string {
+	if e.folders == nil {
+		return append([]string(nil), e.sc.Folders...)
+	}
+	return append([]string(nil), e.folders...)
+}
+
 // DiskFiles returns the current disk tree below Root as scenario files.
 func DiskFiles() []File {
 	var out []File
 	for _, p := range simfs.Files() {
+		d, _ := simfs.Content(p)
 		if !strings.HasPrefix(p, Root+"/") {
+			if strings.HasPrefix(p, "/ws2/") {
+				out = append(out, File{Path: p, Data: d}) // a second workspace root: absolute path
+			}
 			continue
 		}
-		d, _ := simfs.Content(p)
 		out = append(out, File{Path: strings.TrimPrefix(p, Root+"/"), Data: d})
 	}
 	return out
